@@ -13,6 +13,7 @@ import (
 	"os/exec"
 	"runtime"
 	"runtime/debug"
+	"strings"
 	"sync"
 	"time"
 )
@@ -70,7 +71,7 @@ func workerMain() {
 					select {
 					case <-done:
 					case <-time.After(timeout):
-						fmt.Fprintf(os.Stderr, "WATCHDOG timeout on case %s\n", c.caseID())
+						fmt.Fprintf(realStderr, "WATCHDOG timeout on case %s\n", c.caseID())
 						os.Exit(3)
 					}
 				}()
@@ -153,11 +154,27 @@ func runIsolated(lines [][]byte) []isoResult {
 		again := make([]isoResult, 1)
 		runWorkerOnce([][]byte{lines[i]}, again, 0, 1)
 		if again[0].failure == "" && again[0].line != nil {
+			// ...unless the first failure was a Go panic or fatal error with the library on the
+			// stack: that is the library's doing even if it does not recur (map order, timing)
+			if libraryCrash(results[i].stderr) {
+				results[i].stderr = "(did not recur when the case was re-run alone) " + results[i].stderr
+				continue
+			}
 			transientWorkerFailures++
 			results[i] = again[0]
 		}
 	}
 	return results
+}
+
+func libraryCrash(stderr string) bool {
+	if !strings.Contains(stderr, "panic:") && !strings.Contains(stderr, "fatal error:") {
+		return false
+	}
+	if strings.Contains(stderr, "out of memory") || strings.Contains(stderr, "cannot allocate memory") {
+		return false
+	}
+	return strings.Contains(stderr, "go-server-sdk-evaluation") || strings.Contains(stderr, "stack overflow")
 }
 
 // transientWorkerFailures: cases whose worker failed once and completed when re-run alone.
@@ -208,8 +225,8 @@ func runWorkerOnce(lines [][]byte, results []isoResult, pos, hi int) int {
 			f = "timeout"
 		}
 		msg := stderr.String()
-		if len(msg) > 600 {
-			msg = msg[:600]
+		if len(msg) > 3000 {
+			msg = msg[:3000]
 		}
 		results[cur].failure = f
 		results[cur].stderr = msg
